@@ -175,6 +175,7 @@ REGEX_RULES = [
     ('R1:map_err-annotated', r"map_err\(InitError::Interface\)", r"map_err(|e: DI::Error| -> (r: InitError<DI::Error, RST::Error>) ensures r == InitError::<DI::Error, RST::Error>::Interface(e) { InitError::Interface(e) })"),
     ('R1:map_err-into', r"\.map_err\(Into::into\)", r".map_err(|e: DI::Error| -> (r: crate::models::ModelInitError<DI::Error>) ensures r == crate::models::ModelInitError::<DI::Error>::Interface(e) { crate::models::ModelInitError::Interface(e) })"),
     ('R1:map_err-eta', r"map_err\(((?:\w+::)+\w+)\)", r"map_err(|e| \1(e))"),
+    ('R18:repeat-map', r"\(0\.\.count\)\.map\(\|_\| pixel\)", r"crate::vf::repeat_n(count, pixel)"),
     ('R2:closure-wildcard', r"\|_\|", r"|_u|"),
     ('R15:try_into-unwrap', r"let chunk: &mut \[u8; N\] = chunk\.try_into\(\)\.unwrap\(\);", r"let chunk: &mut [u8; N] = crate::vf::slice_as_array_mut(chunk);"),
     ('R16:cmp-min', r"core::cmp::min\(", r"crate::vf::min_u32("),
@@ -301,6 +302,25 @@ def rewrite_forloops(text, contracts, counts):
     (`forloop <ordinal> <iterator name> [iter|into]`), so that ordinary `loop` invariants over `IT.remaining()` can be
     spliced; this Verus has no usable for-loop protocol for generic/prophetic iterators.  Line preserving."""
     want = {k: c.forloops for k, c in contracts.items() if c.forloops}
+    names = {k: c.fornames for k, c in contracts.items() if c.fornames}
+    if names:
+        # R13': `for PAT in EXPR` -> `for PAT in NAME: EXPR` (Verus syntax naming the loop's ghost iterator; no semantic change)
+        m0 = rsscan.mask(text)
+        fns0, _, _, _ = rsscan.scan_items(text, m0)
+        ed = []
+        for f in fns0:
+            if f.key not in names or not f.has_body:
+                continue
+            loops = rsscan.find_loops(m0, f.open + 1, f.close)
+            for ordn, nm in names[f.key].items():
+                if ordn < 1 or ordn > len(loops) or loops[ordn - 1][0] != 'for':
+                    raise Undecided('fn %s: loop %d is not a `for` loop (forname anchor lost)' % (f.key, ordn))
+                kw, kwi, o, cl = loops[ordn - 1]
+                mi = re.compile(r'\bin\b').search(m0, kwi + 3, o)
+                ed.append((mi.end(), mi.end(), ' %s:' % nm))
+                counts['R13b:for-ghost-iterator-named'] = counts.get('R13b:for-ghost-iterator-named', 0) + 1
+        for a, b, t in sorted(ed, reverse=True):
+            text = text[:a] + t + text[b:]
     if not want:
         return text
     m = rsscan.mask(text)
@@ -333,7 +353,7 @@ def rewrite_forloops(text, contracts, counts):
             e2 = expr.strip()
             lead = expr[:len(expr) - len(expr.lstrip())]
             trail = expr[len(expr.rstrip()):]
-            init = ('crate::vf::into_iter(%s)' % e2) if mode == 'into' else e2
+            init = ('crate::vf::into_iter(%s)' % e2) if mode == 'into' else (('crate::vf::array_into_iter(%s)' % e2) if mode == 'array' else e2)
             new_hdr = '{ let mut %s = %s%s;%s loop { match %s.next() { Some(%s) => {' % (itname, lead, init, trail, itname, pat.strip() + pat[len(pat.rstrip()):])
             if new_hdr.count('\n') != text[kwi:o + 1].count('\n'):
                 # keep the line count: pad or fail
@@ -386,6 +406,7 @@ class Contract:
         self.pre = OrderedDict()       # ordinal -> lines placed inside the desugared block before the loop
         self.post = OrderedDict()      # ordinal -> lines placed inside the desugared block after the loop
         self.onerr = []                # proof text placed in every early-return arm of `?`
+        self.fornames = OrderedDict()  # ordinal -> ghost iterator name for a native `for` loop
         self.props = []
 
 
@@ -439,6 +460,10 @@ def parse_vc(path):
                 elif kw == 'forloop':
                     parts = arg.split()
                     cur.forloops[int(parts[0])] = (parts[1], parts[2] if len(parts) > 2 else 'iter')
+                    sect = None
+                elif kw == 'forname':
+                    parts = arg.split()
+                    cur.fornames[int(parts[0])] = parts[1]
                     sect = None
                 elif kw == 'pre':
                     sect = cur.pre.setdefault(int(arg), [])
@@ -516,7 +541,7 @@ def load_externals(path):
 
 # ---------------------------------------------------------------------------------- pass S: splice
 
-def splice(lines, contracts, injections, counts, report, externals=()):
+def splice(lines, contracts, injections, counts, report, externals=(), canary=False):
     text = '\n'.join(l.text for l in lines)
     m = rsscan.mask(text)
     fns, mods, traits, impls = rsscan.scan_items(text, m)
@@ -574,6 +599,13 @@ def splice(lines, contracts, injections, counts, report, externals=()):
                 raise Undecided('signature rewrite changed line count in ' + key)
             reps.append((sig_start, sig_end, newsig))
         clauses = []
+        if canary and f.has_body and c.ret and c.ensures and not any('external_body' in a for a in c.attrs) \
+                and ('fnbody', key) not in [(k_, n_) for k_, n_, _ in externals]:
+            # vacuity canary: with `flag ==> false` added to its postconditions (flag: a fresh uninterpreted boolean, one per
+            # function, so that callers learn nothing useful from it) this function MUST fail to verify
+            idx = len(report.setdefault('canaries', []))
+            c.ensures = list(c.ensures) + ['crate::vfc::c%d() ==> false,' % idx]
+            report['canaries'].append(key)
         for kw in ('requires', 'ensures', 'decreases'):
             body = getattr(c, kw)
             if body:
@@ -677,6 +709,28 @@ def splice(lines, contracts, injections, counts, report, externals=()):
             hs = max(hs, hs2) + 1
             ins.append((hs, -1, '#[verifier::external]\n', tag))
         counts['external:' + kind] = counts.get('external:' + kind, 0) + 1
+    if canary:
+        # canaries for exec functions that have no contract of their own (e.g. trait impl methods checked against the
+        # trait-level contract): the same per-function flag clause
+        ext_keys = set(k_ for kd_, k_, _ in externals if kd_ in ('fn', 'fnbody'))
+        ext_mods = [k_ for kd_, k_, _ in externals if kd_ == 'mod']
+        for f in fns:
+            if not f.has_body or f.key in contracts or f.key in ext_keys or len(bykey.get(f.key, [])) != 1:
+                continue
+            if any(f.key == mk or f.key.startswith(mk + '::') for mk in ext_mods) or f.key.startswith('vf::') or f.key.startswith('vfc::'):
+                continue
+            pre = m[max(0, f.start - 40):f.start]
+            if re.search(r'\b(spec|proof)\s+$', pre) or re.search(r'\b(spec|proof)\s*(\([a-z]*\))?\s+$', pre):
+                continue
+            hdr_txt = m[f.hdr_start:f.start]
+            if 'verifier::external' in text[f.hdr_start:f.start]:
+                continue
+            sigtxt = m[f.start:f.open]
+            if re.search(r'\b(requires|ensures)\b', sigtxt):
+                continue
+            idx = len(report.setdefault('canaries', []))
+            report['canaries'].append(f.key)
+            ins.append((f.open, 0, '\n    ensures crate::vfc::c%d() ==> false,\n' % idx, ('gen', 'canary ' + f.key)))
     modmap = {k: (o, c) for k, o, c in mods}
     traitmap = {k: (o, c) for k, o, c in traits}
     implmap = {k: (o, c) for k, o, c in impls}
@@ -782,7 +836,7 @@ GHOST_FIELDS = [
     ('G1:SpiInterface.ghost_trace', r"pub struct SpiInterface<'a, SPI, DC> \{", r"buffer: &'a mut \[u8\],",
      " pub ghost_trace: Ghost<Seq<crate::vf::Ev<u8>>>,", r"Self \{ spi, dc, buffer \}", "Self { spi, dc, buffer, ghost_trace: Ghost(Seq::empty()) }"),
     ('G1:ParallelInterface.ghost_trace', r"pub struct ParallelInterface<BUS, DC, WR> \{", r"wr: WR,",
-     " pub ghost_trace: Ghost<Seq<crate::vf::Ev<u16>>>,", r"Self \{ bus, dc, wr \}", "Self { bus, dc, wr, ghost_trace: Ghost(Seq::empty()) }"),
+     " pub ghost_trace: Ghost<Seq<crate::vf::Ev<BUS::Word>>>,", r"Self \{ bus, dc, wr \}", "Self { bus, dc, wr, ghost_trace: Ghost(Seq::empty()) }"),
 ]
 
 
@@ -802,6 +856,11 @@ def ghost_fields(lines, counts):
         if k != 1:
             raise Undecided('%s: constructor literal matched %d times' % (name, k))
         counts[name] = 1
+    # G1b: the ghost field's type mentions BUS::Word, so the struct gets the bound every impl already has
+    text, k = re.subn(r"pub struct ParallelInterface<BUS, DC, WR> \{", "pub struct ParallelInterface<BUS: OutputBus, DC, WR> {", text)
+    if k != 1:
+        raise Undecided('G1b: ParallelInterface header')
+    counts['G1b:ParallelInterface-bound'] = 1
     for l, t in zip(lines, text.split('\n')):
         l.text = t
 
@@ -824,13 +883,18 @@ def macro_external(lines, counts):
             n += 1
     if n != 4:
         raise Undecided('generic_bus! macro changed shape (R8 anchors: %d of 4)' % n)
+    # the OutputBus trait carries a ghost log `sets`; the (external, unverified) macro impls get an uninterpreted one
+    a = '            fn set_value(&mut self, value: Self::Word) -> Result<(), Self::Error> {'
+    if a not in m2:
+        raise Undecided('generic_bus! macro changed shape (set_value)')
+    m2 = m2.replace(a, '            ::vstd::prelude::verus!{ uninterp spec fn sets(&self) -> Seq<BusSet<Self::Word>>; }\n' + a, 1).replace('\n' + a, ' ' + a.strip(), 1) if False else m2.replace(a, '            #[verifier::spec] fn sets(&self) -> ::vstd::seq::Seq<BusSet<Self::Word>> { ::core::unimplemented!() } ' + a.strip(), 1)
     text = text[:i] + m2 + text[j:]
     counts['R8:generic_bus-output-external'] = n
     for l, t in zip(lines, text.split('\n')):
         l.text = t
 
 
-def extract(repo, verif, cfg, extra_external=()):
+def extract(repo, verif, cfg, extra_external=(), canary=False):
     """Returns (file text, line origins list, counts, report)."""
     counts = OrderedDict()
     report = {}
@@ -846,13 +910,15 @@ def extract(repo, verif, cfg, extra_external=()):
     externals = load_externals(os.path.join(verif, 'contracts', 'verus', 'externals.txt'))
     externals = list(externals) + list(extra_external)
     report['externals'] = externals
-    body = splice(lines, contracts, injections, counts, report, externals)
+    body = splice(lines, contracts, injections, counts, report, externals, canary=canary)
     prelude = open(os.path.join(verif, 'contracts', 'prelude.rs')).read().split('\n')
     head = ['#![allow(unused_imports, dead_code, unused_variables, unused_mut, unused_assignments, unused_parens, non_snake_case)]',
             'use vstd::prelude::*;', 'verus! {', 'global size_of usize == 8;', '#[allow(unused_imports)] use crate::vf::*;', '#[allow(unused_imports)] use vstd::std_specs::iter::IteratorSpec;', 'broadcast use {crate::dcs::group_dcs_params, crate::vf::group_trace};']
     out = [Line(t, ('gen', 'header')) for t in head]
     out += [Line(t, ('gen', 'prelude.rs:%d' % (i + 1))) for i, t in enumerate(prelude)]
     out += body
+    if canary:
+        out += [Line('pub mod vfc { use vstd::prelude::*; %s }' % ' '.join('pub uninterp spec fn c%d() -> bool;' % i for i in range(len(report.get('canaries', [])))), ('gen', 'canary flags'))]
     out += [Line('} // verus!', ('gen', 'footer'))]
     report['contracts'] = {k: {'src': c.src, 'props': c.props} for k, c in contracts.items()}
     return out, counts, report
